@@ -12,7 +12,7 @@ SITES = ['start', 'ts.canceled.load', 'tsk.schedule.outstanding.load', 'tsk.sche
 TAGS = {'b': 1, 'e': 2, 'x': 3, 'u': 4, 's': 5, 'w': 6, 'tw': 7, 'rt': 8, 'c': 9, 'wk': 10, 'bs': 11, 'ee': 12, 'wc': 13, 'sf': 14, 'bf': 15}
 BODY_SITES = (3, 5, 6, 8, 9, 12, 29)
 KEY_C04 = 'cts-schedule-overload-fallback-ignores-cancel'
-IMPORTS = 'From DV Require Import Base.Sched Model.TaskSetModel Model.TaskSetCheck Model.C02Check Model.C04Check Model.C05Check Model.C47Check.'
+IMPORTS = 'From DV Require Import Base.MachInt Base.Sched Model.TaskSetModel Model.TaskSetCheck Model.C02Check Model.C04Check Model.C05Check Model.C47Check.'
 
 
 # ------------------------------------------------------------------------------------------------ programs
@@ -119,15 +119,15 @@ def derive_hints(p):
             pos_in_thread[i] = n
     for i, (t, code) in enumerate(steps):
         site, s = code // 64, code % 64
-        if site == 11 and prev.get(t) in (31, 32, 43):
+        if site == 11 and prev.get(t, (0, 0))[0] in (31, 32, 43):
             idxs = per_thread[t]
             n = pos_in_thread[i]
             h = -(s + 1)
             if n + 1 < len(idxs) and steps[idxs[n + 1]][1] // 64 == 12 and idxs[n + 1] in body_id:
                 h = body_id[idxs[n + 1]]
-            hints.append(h)
-        prev[t] = site
-    return hints
+            hints.append((prev[t][1], h))       # ordered by the step that dequeued
+        prev[t] = (site, i)
+    return [h for _, h in sorted(hints)]
 
 
 def kids_of(c, i):
@@ -200,6 +200,7 @@ def gen_case(r, flavour='mixed'):
     cancellers = {}             # a set with children is cancelled by one thread only (cancelChildren holds a real mutex across hook points)
     has_kids = set(s[3] for s in sets if s[3] >= 0)
     waited_tsk = {}             # a TaskSet (not concurrent) is driven by one thread only
+    waiter = {}                 # one thread waits on a given set (concurrent wait()/tryWait() calls on one set race in testAndResetException: outside C05's domain)
     for t in range(nt):
         role = r.random()
         ops = []
@@ -221,20 +222,21 @@ def gen_case(r, flavour='mixed'):
             elif x < 0.6:
                 ops.append(('b', s, int(r.random() < force_p), r.choice([1, 2, 2, 3, 4]), rand_body(r, conc_sets, 0, throw_p * 0.7, 0)))
             elif x < 0.75:
-                ops.append(('w', s))
+                ops.append(('w', s) if waiter.setdefault(s, t) == t else ('k',))
             elif x < 0.83:
-                ops.append(('y', s, r.choice([0, 1, 2, 3])))
+                ops.append(('y', s, r.choice([0, 1, 2, 3])) if waiter.setdefault(s, t) == t else ('k',))
             elif x < (0.97 if flavour == 'cancel' else 0.88):
                 if s in has_kids and cancellers.setdefault(s, t) != t:
-                    ops.append(('w', s))
+                    ops.append(('k',))
                 else:
                     ops.append(('c', s))
             else:
                 ops.append(('k',))
-        if flavour in ('barrier', 'exc', 'mixed') and r.random() < 0.8:
-            ops.append(('w', r.choice(mine)))
-        if flavour == 'exc' and r.random() < 0.5:
-            ops.append(('w', r.choice(mine)))
+        for rep in range(2):
+            if (flavour in ('barrier', 'exc', 'mixed') and r.random() < 0.8) if rep == 0 else (flavour == 'exc' and r.random() < 0.5):
+                cand = [s for s in mine if waiter.setdefault(s, t) == t]
+                if cand:
+                    ops.append(('w', r.choice(cand)))
         dep0 = 32 if r.random() < 0.05 else 0
         threads.append((int(r.random() < 0.25), dep0, ops))
     budget = 110
